@@ -198,7 +198,19 @@ async fn read_frame(s: &mut NoiseTcp) -> Option<Vec<u8>> {
 }
 
 async fn noise_pair(ctx: &ctx::Ctx) -> Result<(NoiseTcp, NoiseTcp), String> {
-    let (a, b) = hook::tcp_pair(ctx).await.map_err(|e| format!("tcp_pair: {e:?}"))?;
+    // retried: ephemeral ports can be momentarily exhausted on a busy machine
+    let mut pair = None;
+    for attempt in 0..5 {
+        match hook::tcp_pair(ctx).await {
+            Ok(p) => {
+                pair = Some(p);
+                break;
+            }
+            Err(e) if attempt == 4 => return Err(format!("INFRA: tcp_pair: {e:?}")),
+            Err(_) => tokio::time::sleep(std::time::Duration::from_millis(50 << attempt)).await,
+        }
+    }
+    let (a, b) = pair.unwrap();
     let (ca, cb) = tokio::join!(NoiseTcp::client(ctx, a), NoiseTcp::server(ctx, b));
     Ok((ca.map_err(|e| format!("{e:?}"))?, cb.map_err(|e| format!("{e:?}"))?))
 }
